@@ -6,6 +6,8 @@ import (
 	"math/rand"
 	"net/http"
 	"os"
+	"runtime"
+	"sort"
 	"strings"
 	"time"
 
@@ -81,6 +83,31 @@ func selClassify(err error) string {
 	return "err:other:" + strings.ReplaceAll(m, " ", "_")
 }
 
+// selParked lists the gohlslib functions in which goroutines are currently parked.
+func selParked() string {
+	buf := make([]byte, 1<<20)
+	buf = buf[:runtime.Stack(buf, true)]
+	seen := map[string]bool{}
+	var names []string
+	for _, g := range strings.Split(string(buf), "\n\n") {
+		for _, l := range strings.Split(g, "\n") {
+			if i := strings.Index(l, "gohlslib/v2."); i >= 0 && !strings.HasPrefix(l, "\t") {
+				n := l[i+len("gohlslib/v2."):]
+				if j := strings.LastIndexByte(n, '('); j >= 0 {
+					n = n[:j]
+				}
+				if !seen[n] {
+					seen[n] = true
+					names = append(names, n)
+				}
+				break // innermost gohlslib frame of this goroutine
+			}
+		}
+	}
+	sort.Strings(names)
+	return strings.Join(names, ",")
+}
+
 // startable: the first playlist lets the stream begin (needed for every stream of a
 // multi-stream case, see select_server.go).
 func selStartable(s *selStream) bool {
@@ -117,6 +144,15 @@ func (r *selRunner) run() []string {
 		}
 	}
 
+	if os.Getenv("VERIF_SELECT_WIDEN") != "" {
+		// experiment switch (notes/select.md): widen the window between Unlock and the channel
+		// receive in waitUntilSizeIsBelow, where F12 (lost wake-up) lives
+		gohlslib.VerifSetYieldHook(func(p string) {
+			if p == os.Getenv("VERIF_SELECT_WIDEN") {
+				time.Sleep(2 * time.Millisecond)
+			}
+		})
+	}
 	sv := newSelServer(c, streams)
 	uri := streams[0].Raw
 	if c.Top == "multi" {
@@ -169,6 +205,10 @@ func (r *selRunner) run() []string {
 		}
 	case <-time.After(timeout):
 		outcome = "timeout"
+	}
+	if strings.HasPrefix(outcome, "timeout") {
+		// no result and not every stream parked at the origin: the client hangs. Say where.
+		r.oracle = append(r.oracle, "C11: client neither finished nor asked for anything for "+timeout.String()+"; gohlslib goroutines parked in: "+selParked())
 	}
 	cl.Close()
 	if !got {
@@ -852,6 +892,119 @@ func (selectSlice) Gen(r *rand.Rand, _ int, tier string) ([]string, []string) {
 	return c.ops(), tags
 }
 
+// ---------------------------------------------------------------------------------------------
+// corpus: hand-kept histories that always run first
+
+type selCorpusView struct {
+	msn, n int
+	typ    string
+	end    bool
+	sc     string
+	hint   int // -1 none, else part number
+}
+
+func selCorpusStream(sid int, cont string, exh string, rangeMod int, views []selCorpusView) *selStream {
+	s := &selStream{ID: sid, Exh: exh, Raw: fmt.Sprintf("http://origin.test/c/s%d/index.m3u8", sid)}
+	s.URL = selResolve("http://origin.test/c/master.m3u8", s.Raw)
+	g := &selStreamGen{r: rand.New(rand.NewSource(int64(sid) + 1)), sid: sid, base: s.URL, ext: "ts", rangeMod: rangeMod, segs: map[int]selSeg{}}
+	var mp *selSeg
+	if cont == "fmp4" {
+		g.ext = "mp4"
+		m := g.res("init.mp4", true, false)
+		mp = &m
+	}
+	for _, cv := range views {
+		v := &selView{MSN: cv.msn, Type: cv.typ, End: cv.end, SC: cv.sc, Map: mp, Segs: g.window(cv.msn, cv.n)}
+		if v.Type == "" {
+			v.Type = "none"
+		}
+		if v.SC == "" {
+			v.SC = "-"
+		}
+		if cv.hint >= 0 {
+			h := g.res(fmt.Sprintf("part%d.mp4", cv.hint), false, true)
+			v.Hint = &h
+		}
+		s.Views = append(s.Views, v)
+	}
+	return s
+}
+
 func (selectSlice) Corpus() [][]string {
-	return nil
+	one := func(cont string, s *selStream) []string {
+		return (&selCase{HasCfg: true, Top: "media", Cont: cont, MURL: "-", Streams: []*selStream{s}}).ops()
+	}
+	nh := -1
+	var out [][]string
+	// exactly five behind the edge is still served, six is "too late"
+	out = append(out, one("ts", selCorpusStream(0, "ts", "fail", 0, []selCorpusView{
+		{msn: 10, n: 3, hint: nh}, {msn: 10, n: 6, hint: nh}, {msn: 10, n: 8, hint: nh}, {msn: 10, n: 10, hint: nh}, {msn: 10, n: 13, hint: nh}})))
+	// ENDLIST appears in the middle: the remaining two segments, then end of stream
+	out = append(out, one("fmp4", selCorpusStream(0, "fmp4", "fail", 1, []selCorpusView{
+		{msn: 5, n: 4, hint: nh}, {msn: 6, n: 4, hint: nh}, {msn: 6, n: 4, end: true, hint: nh}, {msn: 6, n: 4, end: true, hint: nh}, {msn: 6, n: 4, end: true, hint: nh}})))
+	// VOD with a single segment; VOD decided by the FIRST playlist only
+	out = append(out, one("ts", selCorpusStream(0, "ts", "fail", 0, []selCorpusView{{msn: 0, n: 1, typ: "vod", end: true, hint: nh}})))
+	out = append(out, one("ts", selCorpusStream(0, "ts", "fail", 2, []selCorpusView{
+		{msn: 7, n: 5, typ: "vod", hint: nh}, {msn: 7, n: 5, hint: nh}, {msn: 7, n: 5, typ: "event", end: true, hint: nh},
+		{msn: 7, n: 5, end: true, hint: nh}, {msn: 7, n: 5, end: true, hint: nh}, {msn: 7, n: 5, end: true, hint: nh}})))
+	// an EVENT playlist that already carries ENDLIST is NOT a VOD playlist: third from last
+	out = append(out, one("fmp4", selCorpusStream(0, "fmp4", "fail", 0, []selCorpusView{
+		{msn: 100, n: 6, typ: "event", end: true, hint: nh}, {msn: 100, n: 6, typ: "event", end: true, hint: nh}, {msn: 100, n: 6, typ: "event", end: true, hint: nh}})))
+	// fewer than three segments; stalled playlist at the edge (next segment not ready); window moved past the next id
+	out = append(out, one("ts", selCorpusStream(0, "ts", "fail", 0, []selCorpusView{{msn: 3, n: 2, hint: nh}})))
+	out = append(out, one("ts", selCorpusStream(0, "ts", "hold", 0, []selCorpusView{
+		{msn: 3, n: 3, hint: nh}, {msn: 3, n: 3, hint: nh}, {msn: 3, n: 3, hint: nh}, {msn: 3, n: 3, hint: nh}})))
+	out = append(out, one("ts", selCorpusStream(0, "ts", "fail", 3, []selCorpusView{{msn: 3, n: 4, hint: nh}, {msn: 9, n: 4, hint: nh}})))
+	// media sequence regresses
+	out = append(out, one("ts", selCorpusStream(0, "ts", "fail", 0, []selCorpusView{{msn: 30, n: 4, hint: nh}, {msn: 2, n: 4, hint: nh}})))
+	// byte ranges at the ends of uint64
+	{
+		s := selCorpusStream(0, "ts", "fail", 0, []selCorpusView{{msn: 0, n: 4, typ: "vod", end: true, hint: nh}})
+		v := s.Views[0]
+		v.Segs[0].Len, v.Segs[0].Start = u64p(0), u64p(0)              // bytes=0-18446744073709551615
+		v.Segs[1].Len, v.Segs[1].Start = u64p(16), u64p(^uint64(0)-15) // start+len = 2^64
+		v.Segs[2].Len = u64p(1)                                        // bytes=0-0
+		v.Segs[3].Len, v.Segs[3].Start = u64p(^uint64(0)), u64p(5)     // wraps: bytes=5-3
+		for i := 1; i < 4; i++ {
+			s.Views = append(s.Views, v)
+		}
+		out = append(out, one("ts", s))
+	}
+	// Low-Latency: delta requested because the FIRST playlist advertised it, although later ones do not; hint disappears
+	out = append(out, one("fmp4", selCorpusStream(0, "fmp4", "fail", 0, []selCorpusView{
+		{msn: 0, n: 2, sc: "b1s1", hint: 0}, {msn: 0, n: 2, sc: "b1s0", hint: 1}, {msn: 1, n: 2, sc: "-", hint: 2}, {msn: 1, n: 2, sc: "b1s1", hint: nh}})))
+	out = append(out, one("fmp4", selCorpusStream(0, "fmp4", "hold", 0, []selCorpusView{
+		{msn: 0, n: 2, sc: "b1s0", hint: 0}, {msn: 0, n: 2, sc: "b1s1", hint: 1}, {msn: 1, n: 2, sc: "b1s1", hint: 2}})))
+	// CAN-BLOCK-RELOAD without a hint and CAN-SKIP-UNTIL without blocking reload: traditional loop, never a delta
+	out = append(out, one("ts", selCorpusStream(0, "ts", "fail", 0, []selCorpusView{
+		{msn: 0, n: 3, sc: "b1s1", hint: nh}, {msn: 1, n: 3, sc: "b1s1", hint: nh}})))
+	out = append(out, one("ts", selCorpusStream(0, "ts", "fail", 0, []selCorpusView{
+		{msn: 0, n: 3, sc: "b0s1", hint: 0}, {msn: 1, n: 3, sc: "b0s1", hint: 1}})))
+	// three streams: a VOD rendition that ends, a held rendition, the leading stream falls behind
+	{
+		c := &selCase{HasCfg: true, Top: "multi", Cont: "ts", MURL: "http://origin.test/c/master.m3u8"}
+		c.Streams = append(c.Streams, selCorpusStream(0, "ts", "fail", 0, []selCorpusView{
+			{msn: 0, n: 3, hint: nh}, {msn: 0, n: 4, hint: nh}, {msn: 0, n: 9, hint: nh}}))
+		c.Streams = append(c.Streams, selCorpusStream(1, "ts", "hold", 1, []selCorpusView{
+			{msn: 50, n: 3, hint: nh}, {msn: 51, n: 3, hint: nh}, {msn: 52, n: 3, hint: nh}}))
+		c.Streams = append(c.Streams, selCorpusStream(2, "ts", "fail", 0, []selCorpusView{
+			{msn: 9, n: 2, typ: "vod", end: true, hint: nh}, {msn: 9, n: 2, typ: "vod", end: true, hint: nh}}))
+		for _, s := range c.Streams {
+			s.Raw = fmt.Sprintf("s%d/index.m3u8", s.ID)
+		}
+		out = append(out, c.ops())
+	}
+	// every stream reaches the end: ErrClientEOS
+	{
+		c := &selCase{HasCfg: true, Top: "multi", Cont: "fmp4", MURL: "http://origin.test/c/master.m3u8"}
+		c.Streams = append(c.Streams, selCorpusStream(0, "fmp4", "fail", 0, []selCorpusView{
+			{msn: 0, n: 3, end: true, hint: nh}, {msn: 0, n: 3, end: true, hint: nh}, {msn: 0, n: 3, end: true, hint: nh}}))
+		c.Streams = append(c.Streams, selCorpusStream(1, "fmp4", "fail", 2, []selCorpusView{
+			{msn: 4, n: 2, typ: "vod", end: true, hint: nh}, {msn: 4, n: 2, typ: "vod", end: true, hint: nh}}))
+		for _, s := range c.Streams {
+			s.Raw = fmt.Sprintf("s%d/index.m3u8", s.ID)
+		}
+		out = append(out, c.ops())
+	}
+	return out
 }
